@@ -155,6 +155,7 @@ func (w *World) nilDerefSites() (sites []nilDerefSite, nCalls int, summaries []s
 	}
 	sort.Strings(summaries)
 	summaries = dedupSortedPlain(summaries)
+	perKeyCalls := map[string]int{}
 	for _, fn := range w.SSAFuncs {
 		for _, b := range fn.Blocks {
 			for _, ins := range b.Instrs {
@@ -190,14 +191,26 @@ func (w *World) nilDerefSites() (sites []nilDerefSite, nCalls int, summaries []s
 				if v == nil {
 					continue
 				}
+				counted := false
 				for _, use := range derefUses(v, map[ssa.Value]bool{}, 0) {
 					if knownNonNil(use.val, use.ins.Block()) {
 						continue
 					}
 					// same-block guard: `if v != nil && *v` is split into blocks by SSA, so nothing else to do
+					// (an invariant is recorded per call whose result is dereferenced unguarded: a second
+					// such call in the same function - on another holder, for another annotation - needs its own)
+					base := fnShort(fn) + "<-" + fnShort(callee)
+					if !counted {
+						counted = true
+						perKeyCalls[base]++
+					}
+					key := base
+					if perKeyCalls[base] > 1 {
+						key = fmt.Sprintf("%s#%d", base, perKeyCalls[base])
+					}
 					sites = append(sites, nilDerefSite{
 						Caller: fnShort(fn), Callee: fnShort(callee), Pos: use.ins.Pos(), Use: use.kind,
-						Key: fnShort(fn) + "<-" + fnShort(callee),
+						Key: key,
 					})
 				}
 			}
@@ -245,6 +258,10 @@ func derefUses(v ssa.Value, seen map[ssa.Value]bool, depth int) []derefUse {
 				}
 			}
 		case *ssa.ChangeType:
+			out = append(out, derefUses(x, seen, depth+1)...)
+		case *ssa.Phi:
+			// merged with other values (`a := f(); if c { a = g() }; a.x`): a dereference of the
+			// merge is a dereference of this value on the paths it comes from
 			out = append(out, derefUses(x, seen, depth+1)...)
 		}
 	}
